@@ -272,18 +272,35 @@ def preemptStep (st : PreSt) (j : Json) : Except String (PreSt × String) := do
     let mut diffs : List String := []
     let mut invs : List String := []
     let mut mres : Option TryResult := none
+    -- what the model says the attempt leaves behind (flags of every allocation, triggered flag, logged failure)
+    let mut mlate : Option TryLate := none
+    -- allocations released between the victim collection and the marking loop (only when TryPreemption runs)
+    let late : List String := if pre then (jStrs (fldD j "lateRelease" (.arr #[]))).toOption.getD [] else []
+    let lateDone : List String := (jStrs (fldD j "lateReleased" (.arr #[]))).toOption.getD []
+    let preAfter : Option (List String) := (jStrs (fldD j "preemptedAfter" .null)).toOption
+    let relAfter : Option (List String) := (jStrs (fldD j "releasedAfter" .null)).toOption
+    let askLog : Option (List String) := (jStrs (fldD j "askLog" .null)).toOption
+    let loggedReleased := (askLog.getD []).contains "Victims picked earlier were released at the final stage"
+    let whyAbort := fun (t : TryLate) => if t.released then "abort(victims released)" else "abort"
     if mpre != pre then diffs := diffs ++ [s!"try.preconditions model={mpre} impl={pre}"]
     let ss := findEligible w
     let plugin := fldD j "plugin" .null
+    if !pre && diffs.isEmpty then
+      mlate := some { allocs := w.allocs, result := none, released := false, triggered := ask.triggered }
     if pre && diffs.isEmpty then
       if plugin.isNull then
-        match tryPreemptionNoPlugin w nodesTried with
-        | none => if ok then diffs := diffs ++ [s!"try.result model=abort impl=commit node={node} marked={e.marked}"]
+        let t := tryPreemptionLate w nodesTried late
+        match t.result with
+        | none =>
+          if ok then diffs := diffs ++ [s!"try.result model={whyAbort t} impl=commit node={node} marked={e.marked} released-late={late}"]
+          else mlate := some t
         | some r =>
-          if !ok then diffs := diffs ++ [s!"try.result model=commit node={r.node} victims={keysOf r.victims} impl=abort"]
+          if !ok then diffs := diffs ++ [s!"try.result model=commit node={r.node} victims={keysOf r.victims} impl=abort released-late={late}"]
           else if r.node != node then diffs := diffs ++ [s!"try.node model={r.node} impl={node}"]
           else if keysOf r.victims != sortStrs e.marked then diffs := diffs ++ [s!"try.victims model={keysOf r.victims} impl={sortStrs e.marked}"]
-          else mres := some r
+          else
+            mres := some r
+            mlate := some t
       else
         let rows ← match plugin with
           | .obj kvs => kvs.toList.mapM (fun (k, v) => do
@@ -291,6 +308,7 @@ def preemptStep (st : PreSt) (j : Json) : Except String (PreSt × String) := do
           | _ => throw "bad plugin table"
         if !checkGuarantees w ss then
           if ok then diffs := diffs ++ ["try.result model=abort(guarantees) impl=commit"]
+          else mlate := some (finishTry w late none)
         else
           let cs := nodeChecks w ss nodesTried
           -- the checks the plugin saw (first batch = all of them)
@@ -306,25 +324,70 @@ def preemptStep (st : PreSt) (j : Json) : Except String (PreSt × String) := do
           if srt mine != srt seen then diffs := diffs ++ [s!"try.checks model={srt mine} impl={srt seen}"]
           else
             let cands := pluginCandidates w ss rows cs
-            let outcomes := cands.map (fun (c, idx) => match populate c idx with
-              | none => (c.node, none)
-              | some (c, nv) => (c.node, commitAfterPick w ss c nv))
+            let outcomes : List (String × TryLate) := cands.map (fun (c, idx) => match populate c idx with
+              | none => (c.node, finishTry w late none)
+              | some (c, nv) => (c.node, finishTry w late (commitAfterPick w ss c nv)))
             if ok then
               match outcomes.find? (fun o => o.1 == node) with
               | none => diffs := diffs ++ [s!"try.node impl={node} not among the best answers {outcomes.map (·.1)}"]
-              | some (_, none) => diffs := diffs ++ [s!"try.result model=abort on {node} impl=commit marked={e.marked}"]
-              | some (_, some r) =>
-                if keysOf r.victims != sortStrs e.marked then diffs := diffs ++ [s!"try.victims node={node} model={keysOf r.victims} impl={sortStrs e.marked}"]
-                else mres := some r
+              | some (_, t) =>
+                match t.result with
+                | none => diffs := diffs ++ [s!"try.result model={whyAbort t} on {node} impl=commit marked={e.marked} released-late={late}"]
+                | some r =>
+                  if keysOf r.victims != sortStrs e.marked then diffs := diffs ++ [s!"try.victims node={node} model={keysOf r.victims} impl={sortStrs e.marked}"]
+                  else
+                    mres := some r
+                    mlate := some t
             else
-              if !outcomes.isEmpty && outcomes.all (fun o => o.2.isSome) then
-                diffs := diffs ++ [s!"try.result model=commit on any of {outcomes.map (·.1)} impl=abort"]
+              if !outcomes.isEmpty && outcomes.all (fun o => o.2.result.isSome) then
+                diffs := diffs ++ [s!"try.result model=commit on any of {outcomes.map (·.1)} impl=abort released-late={late}"]
+              else
+                -- which of several equally good answers was taken is not known: any abandoned one that explains the log
+                let aborted := (outcomes.map (·.2)).filter (fun t => t.result.isNone)
+                mlate := match aborted.find? (fun t => t.released == loggedReleased) with
+                  | some t => some t
+                  | none => match aborted with
+                    | t :: _ => some t
+                    | [] => some (finishTry w late none)
+    -- the state the attempt leaves behind, model against implementation
+    match mlate with
+    | none => pure ()
+    | some t =>
+      if diffs.isEmpty then
+        let wAfter : World := { w with allocs := t.allocs }
+        let mMarks := sortStrs (markedKeys t.allocs)
+        let mRel := sortStrs ((t.allocs.filter (·.released)).map (·.key))
+        match preAfter with
+        | some pa => if sortStrs pa != mMarks then
+            diffs := diffs ++ [s!"try.marks-after model={mMarks} impl={sortStrs pa} committed={ok} released-late={late}"]
+        | none => pure ()
+        match relAfter with
+        | some ra => if diffs.isEmpty && sortStrs ra != mRel then
+            diffs := diffs ++ [s!"try.released-after model={mRel} impl={sortStrs ra} released-late={late}"]
+        | none => pure ()
+        if diffs.isEmpty && t.triggered != trig then
+          diffs := diffs ++ [s!"try.triggered model={t.triggered} impl={trig} committed={ok}"]
+        if diffs.isEmpty then
+          match (List.range w.queues.length).find? (fun i =>
+              !resEq (prune (preemptingOf wAfter i)) (prune (e.preemptingAfter.getD i []))) with
+          | some i => diffs := diffs ++ [s!"try.preempting-after[{pathOf w i}] model={showRes (preemptingOf wAfter i)} impl={showRes (e.preemptingAfter.getD i [])}"]
+          | none => pure ()
+        if diffs.isEmpty && askLog.isSome && loggedReleased != t.released then
+          diffs := diffs ++ [s!"try.log-victims-released model={t.released} impl={loggedReleased} log={askLog.getD []}"]
     -- clauses on what the implementation did
     if !pre && ok then invs := invs ++ ["C07.P1-preconditions TryPreemption committed although CheckPreconditions said no"]
     if ok && !(ask.other && !ask.triggered && ask.req.isNone && decide (delay ≤ ask.age)) then
       invs := invs ++ [s!"C07.P1-preconditions commit with other={ask.other} triggered={ask.triggered} req={ask.req} age={ask.age} delay={delay}"]
     if trig != (ok || ask.triggered) then invs := invs ++ [s!"C07.T3-triggered-iff-committed ok={ok} before={ask.triggered} after={trig}"]
+    -- MarkPreempted / SetReleased exclude each other: nothing released since the victims were collected is marked
+    for k in lateDone do
+      if e.marked.contains k then invs := invs ++ [s!"C07.E2-released {k} (released after the victims were collected, marked nevertheless)"]
     if !ok then
+      -- an abandoned attempt leaves no victim marked, un-marks nothing that was marked before and announces nothing
+      if !e.marked.isEmpty then
+        invs := invs ++ [s!"C07.A3-abandoned-leaves-no-mark attempt abandoned, still marked preempted: {e.marked} released-late={lateDone} announced={e.rel}"]
+      if !e.rel.isEmpty then invs := invs ++ [s!"C07.A1-announced-once attempt abandoned, released={e.rel}"]
+      if !e.unmarked.isEmpty then invs := invs ++ [s!"C07.A2-unmarked {e.unmarked}"]
       if !nothingHappened e w then invs := invs ++ [s!"C08.A1-nothing-on-abort marked={e.marked} released={e.rel}"]
     else
       invs := invs ++ effectClauses w e
